@@ -69,6 +69,13 @@ def parse_report(text):
             if fm.group(2).startswith(build.REPO + "/lib/") or "/repo" in fm.group(2):
                 func = fm.group(1)
                 break
+    if func is None and kind and kind.startswith("tsan:"):
+        # ThreadSanitizer frames: "#0 func /path/file.c:123 (binary+0x...)"
+        for line in text.splitlines():
+            tm = re.match(r"\s*#\d+ (\S+) (\S+?):\d+", line)
+            if tm and "/lib/" in tm.group(2) and "/harness/" not in tm.group(2):
+                func = tm.group(1)
+                break
     if func is None:
         for line in text.splitlines():
             fm = _FRAME.search(line.strip())
